@@ -5,6 +5,7 @@ From Fibre Require Import Common.Base Cache.PolicySpec Cache.AMap Cache.CacheOps
      Proofs.AMapProofs Proofs.CacheCoreProofs.
 
 Section Steps.
+  Set Default Proof Using "All".
   Variable P : policy.
   Variable c : cfg.
   Hypothesis Hn : 0 < c_shards c.
